@@ -712,6 +712,14 @@ def process(res, descs, linprog_all=False):
                 w.kill()
                 pending.pop(0)          # skip the scenario that hung / crashed, restart a worker for the rest
                 answers[cur] = None
+                res.count("worker_lost")
+                if res.hist.get("worker_lost", 0) >= 3:
+                    # three scenarios lost to a hang or a crash are three failing inputs: the remaining ones would each cost a
+                    # deadline plus a worker start, and the check would run into its own time limit instead of reporting
+                    res.notes.append("stopped after 3 hung / crashed scenarios; %d scenarios of this batch not run" % len(pending))
+                    for i_ in pending:
+                        answers[i_] = None
+                    pending = []
                 break
             assert a["sid"] == cur, (a["sid"], cur)
             answers[cur].append(a)
